@@ -23,6 +23,7 @@ import BertE.Drv.Eval
 import BertE.Drv.QValidate
 import BertE.Drv.Select
 import BertE.Drv.Full
+import BertE.Drv.Conv
 /- One line in, one line out. The first word selects the model entry point. Core Lean only
    (nothing reachable from here imports Mathlib, so this links as a `lean_exe`). -/
 
@@ -53,6 +54,7 @@ def dispatch (line : String) : String :=
   | "EV" :: args => BertE.Drv.Eval.handle args
   | "SEL" :: args => BertE.Drv.Select.handle args
   | "FULL" :: args => BertE.Drv.Full.handle args
+  | "CONV" :: args => BertE.Drv.Conv.handle args
   | _ => "bad-op"
 
 partial def loop (h : IO.FS.Stream) (out : IO.FS.Stream) : IO Unit := do
